@@ -537,3 +537,61 @@ spec("C10", jobs=c10_jobs, crash_is_violation=True,
      rule="union jobs: distinct choice sequences within the deviation bound; ramps: every (population, operation, position) tuple; "
           "distinct_nontrivial = distinct outcome signatures",
      assumptions=DES_ASSUME + ["data-array thresholds (dataset/timeseries at 1023-2049 samples) are exercised by the C17/C18 harnesses under the same sanitizer build"])
+
+
+# ----------------------------------------------------------------------------- C17
+def c17_jobs(tier):
+    def j(name, **o):
+        return dict(name=name, harness="c17_summary", opts=o, bound_min=0, bound_max=0, deadline=900,
+                    crash_is_violation=True)
+    if tier == "quick":
+        return [j("plain-len5", mode="plain", maxlen=5), j("offset-len5", mode="offset", maxlen=5),
+                j("weighted-len3", mode="weighted", maxlen=3)]
+    return [j("plain-len7", mode="plain", maxlen=7), j("offset-len7", mode="offset", maxlen=7),
+            j("weighted-len4", mode="weighted", maxlen=4)]
+
+
+spec("C17", jobs=c17_jobs,
+     technique="exhaustive enumeration of all short sample sequences over a value/weight alphabet, every split and merge aliasing, against a quad-precision two-pass reference",
+     level_text="All sequences of length 0..L over {0, 1, -1, 2, 1e9+1, 1e-3, 1e60} and over a large-common-offset alphabet "
+                "(1e9-5 .. 1e9+3), and all weighted sequences over values x weights {1, 0, 2, 1/2}: for each, count/min/max exactly and "
+                "mean/variance/stddev/skewness/kurtosis against __float128 two-pass statistics; every split point, both merge "
+                "orders and all three target aliasings (including empty operands) must give the summary of the concatenation; "
+                "weighted: exact weighted mean, zero weights ignored, unit weights = unweighted, every statistic unchanged when all "
+                "weights are multiplied by 3, 1/4, 1e6.",
+     level_note="Trusted: the quad-precision reference and tolerances in harness/c17_summary.c (1e-6 of a magnitude scale for moments: "
+                "rounding is 1e-13, a wrong coefficient is O(1)). Skewness/kurtosis are compared only for well-conditioned data "
+                "(spread > 1e-7 of the magnitude) and not for constant data, where they are undefined.",
+     budget=dict(quick=900, thorough=5400),
+     rule="every sequence up to the length bound; distinct_nontrivial = distinct (mean, m2) bit patterns observed; states = distinct input sequences",
+     assumptions=["finite samples, non-negative weights (documented preconditions)"])
+
+
+# ----------------------------------------------------------------------------- C18
+def c18_jobs(tier):
+    def j(name, **o):
+        return dict(name=name, harness="c18_data", opts=o, bound_min=0, bound_max=0, deadline=1200,
+                    crash_is_violation=True, recycle=300)
+    if tier == "quick":
+        return [j("small-len6", mode="small", maxlen=6), j("perm6", mode="perm", maxlen=6), j("big", mode="big"),
+                j("ts-len4", mode="ts", maxlen=4)]
+    return [j("small-len8", mode="small", maxlen=8), j("perm8", mode="perm", maxlen=8), j("big", mode="big"),
+            j("ts-len6", mode="ts", maxlen=6)]
+
+
+spec("C18", jobs=c18_jobs,
+     technique="exhaustive enumeration of all short sample arrays (values x duration patterns), all permutations, and threshold-size arrays, each checked against the definitions (multiset, order statistics, bin totals, invariances)",
+     level_text="All arrays of length 1..L over {0,1,2,3}, all permutations of 1..K, arrays of 1023/1024/1025/2048/2049 samples "
+                "(sorted, reverse, constant, saw-tooth), and for time series every duration pattern over {1,0,5}: sort (same multiset, "
+                "ascending, (value,time,weight) triples intact, sort-by-time restores order), copies exact and extendable (under "
+                "ASan), median a true (weighted) median inside the data range, five-number output parsed from the printed report "
+                "monotone and inside the range, histogram bins (dataset and time-weighted fill) adding up to the sample count / total "
+                "weight for bin counts {1,2,5} and four ranges incl. autoscale, ACF/PACF one at lag 0 and invariant under shifts "
+                "+1000/-7 and scalings 2, 1/2, 2^-20.",
+     level_note="Trusted: the definitions coded in harness/c18_data.c; the time-weighted histogram fill is reached by compiling "
+                "/repo/src/cmb_timeseries.c into the harness translation unit. The five-number report is printed with 4 significant "
+                "digits, so its comparison has 1e-3 relative slack.",
+     budget=dict(quick=900, thorough=5400),
+     rule="every array up to the length bound / every permutation / every (size, pattern) pair; distinct_nontrivial = distinct "
+          "medians observed; states = distinct inputs",
+     assumptions=["finite samples; non-decreasing time stamps (documented precondition)"])
